@@ -802,3 +802,24 @@ pub fn s_isolation(thorough: bool) -> Vec<WCfg> {
     }
     out
 }
+
+
+/// S-overlap: the search starts where a failed first attempt has answered its HTLC, its bookkeeping write is
+/// stalled inside the node, and the sender's retry has just arrived (two lifecycles of one hash overlap).
+pub fn s_overlap() -> WCfg {
+    let mut c = s_life("S-overlap/1htlc+retry", false, false, true);
+    let t = &c.invoices[0].hash_hex[..4].to_string();
+    c.prefix = vec![
+        "Deliver(a)".to_string(),
+        format!("Answer(listdatastore@{}#1)", t),
+        format!("Answer(datastore[state]@{}#1)", t),
+        format!("Answer(datastore[attempts]@{}#1)", t),
+        format!("PaySpawnPart(cmd@{}#1)", t),
+        format!("Part(g1.p1@{},Fail204)", t),
+        format!("PayEnd(cmd@{}#1,failed)", t),
+        format!("Stall(datastore[attempts]@{}#2)", t),
+        "Deliver(a')".to_string(),
+    ];
+    c.max_stalls = 3;
+    c
+}
